@@ -935,6 +935,23 @@ func hasKnownFormat(d *D) bool {
 	return false
 }
 
+// walkDocs visits a document and every sub-schema below it.
+func walkDocs(d *D, f func(*D)) {
+	if d == nil || d.Bool != nil {
+		return
+	}
+	f(d)
+	for _, k := range d.Kws {
+		walkDocs(k.Sub, f)
+		for _, s := range k.Subs {
+			walkDocs(s, f)
+		}
+		for _, p := range k.Props {
+			walkDocs(p.D, f)
+		}
+	}
+}
+
 func corpus() []*D {
 	str := func(ks ...KW) *D { return node(append([]KW{kwT("string")}, ks...)...) }
 	null := node(kwT("null"))
@@ -1023,10 +1040,14 @@ func main() {
 		}
 		for _, k := range d.Kws {
 			out.Count("kw:" + k.Name)
-			if k.Name == "const" || k.Name == "enum" {
-				out.Count("members:" + memberClass(k.Prims))
-			}
 		}
+		walkDocs(d, func(sd *D) {
+			for _, k := range sd.Kws {
+				if k.Name == "const" || k.Name == "enum" {
+					out.Count("members:" + memberClass(k.Prims))
+				}
+			}
+		})
 		o1, z := outcome(sch, false)
 		o2, _ := outcome(sch, true)
 		out.Count("conv:" + o1 + "/" + o2)
